@@ -208,8 +208,11 @@ def _import_cli():
             import ascmhl.cli.ascmhl
             import ascmhl.cli.ascmhl_debug
 
-            ascmhl.cli.ascmhl.updater.join(2)
-            ascmhl.cli.ascmhl_debug.updater.join(2)
+            for u in (ascmhl.cli.ascmhl.updater, ascmhl.cli.ascmhl_debug.updater):
+                try:
+                    u.join(2)
+                except RuntimeError:
+                    pass  # (an import-time checker whose thread was never started)
     import ascmhl.cli.ascmhl
     import ascmhl.cli.ascmhl_debug
 
